@@ -13,7 +13,7 @@ from checks import common
 
 CLAUSES = {
     'C01': {'Sync', 'RootIdentity'},
-    'C03': {'SliceLaw', 'NothingElse', 'OracleAgree', 'CarriedOutNotRefused', 'IllFormedAccepted'},
+    'C03': {'SliceLaw', 'NothingElse', 'OracleAgree', 'CarriedOutNotRefused', 'IllFormedAccepted', 'OpsLaw'},
     'C12': {'AtomicOnRaise.tree', 'AtomicOnRaise.text', 'AtomicOnRaise.srcparse', 'RegistryQuiescent',
             'NextEditAfterRaise'},
 }
